@@ -70,8 +70,12 @@ func findTextwireFiles() (map[string]string, error) {
 	return result, nil
 }
 
+// nameFromPath returns the template name of a file found under the template directory:
+// its path relative to that directory without the template extension
 func nameFromPath(path string) string {
-	name := strings.Replace(path, userConfig.TemplateDir+"/", "", 1)
-	name = strings.Replace(name, userConfig.TemplateExt, "", 1)
-	return name
+	dir := filepath.ToSlash(filepath.Clean(userConfig.TemplateDir))
+
+	name := strings.TrimPrefix(filepath.ToSlash(filepath.Clean(path)), dir+"/")
+
+	return strings.TrimSuffix(name, userConfig.TemplateExt)
 }
